@@ -6,6 +6,12 @@
   numbers that were printed:
 
     `dec2decL_dmsChars`, `dec2decL_hmsChars`   for all d, m < 100 and cs < 10000, any `[R α]`.
+
+  White space and sign:
+    `tokensL_pad`, `dec2decL_pad`            leading / trailing separators (blanks, tabs) change nothing
+    `tokensL_colonToSpace`, `dec2decL_colonToSpace`   ':' may be replaced by ' '
+    `dec2decL_minus`                         a first field starting with '-' selects the subtracting branch
+                                             whatever its numeric value (`-00`, `-0`)
 -/
 import Aegean.Model.C17
 
@@ -137,5 +143,104 @@ theorem dec2decL_hmsChars {α : Type} [R α] (pos neg : α → α → α → α)
   rw [h3]
   simp only [parseNum_pad2 h hh, parseNum_pad2 m hm, parseNum_sec cs hcs]
   simp
+
+/-! ### white space and separators -/
+
+theorem tokAux_allsep (S : List Char) (hS : ∀ c ∈ S, isSep c = true) (cur : List Char) :
+    tokAux S cur = if cur.isEmpty then [] else [cur.reverse] := by
+  induction S generalizing cur with
+  | nil => simp [tokAux]
+  | cons c S ih =>
+    have hc : isSep c = true := hS c (by simp)
+    have ih' := ih (fun x hx => hS x (by simp [hx])) []
+    simp [tokAux, hc, ih']
+
+/-- leading separators (blanks, tabs, colons) are skipped -/
+theorem tokAux_lead (S rest : List Char) (hS : ∀ c ∈ S, isSep c = true) :
+    tokAux (S ++ rest) [] = tokAux rest [] := by
+  induction S with
+  | nil => simp
+  | cons c S ih =>
+    have hc : isSep c = true := hS c (by simp)
+    simp [tokAux, hc, ih (fun x hx => hS x (by simp [hx]))]
+
+/-- trailing separators change nothing -/
+theorem tokAux_trail (l S : List Char) (hS : ∀ c ∈ S, isSep c = true) (cur : List Char) :
+    tokAux (l ++ S) cur = tokAux l cur := by
+  induction l generalizing cur with
+  | nil => simp [tokAux_allsep S hS, tokAux]
+  | cons c l ih =>
+    cases h : isSep c <;> simp [tokAux, h, ih]
+
+/-- **parsing is invariant under leading and trailing separators** (ASCII white space included) -/
+theorem tokensL_pad (pre post l : List Char) (hpre : ∀ c ∈ pre, isSep c = true)
+    (hpost : ∀ c ∈ post, isSep c = true) : tokensL (pre ++ (l ++ post)) = tokensL l := by
+  unfold tokensL; rw [tokAux_lead pre _ hpre, tokAux_trail l post hpost]
+
+theorem dec2decL_pad {α : Type} [R α] (pos neg : α → α → α → α) (pre post l : List Char)
+    (hpre : ∀ c ∈ pre, isSep c = true) (hpost : ∀ c ∈ post, isSep c = true) :
+    dec2decL pos neg (pre ++ (l ++ post)) = dec2decL pos neg l := by
+  unfold dec2decL; rw [tokensL_pad pre post l hpre hpost]
+
+/-- replacing separators by other separators (':' by ' ' or a tab) changes nothing -/
+theorem tokAux_mapSep (f : Char → Char) (hf0 : ∀ c, isSep c = false → f c = c)
+    (hf1 : ∀ c, isSep c = true → isSep (f c) = true) (l cur : List Char) :
+    tokAux (l.map f) cur = tokAux l cur := by
+  induction l generalizing cur with
+  | nil => simp [tokAux]
+  | cons c l ih =>
+    cases h : isSep c
+    · simp [tokAux, h, hf0 c h, ih]
+    · simp [tokAux, h, hf1 c h, ih]
+
+def colonToSpace (c : Char) : Char := if c = ':' then ' ' else c
+
+theorem tokensL_colonToSpace (l : List Char) : tokensL (l.map colonToSpace) = tokensL l := by
+  unfold tokensL
+  apply tokAux_mapSep
+  · intro c h; unfold colonToSpace; split
+    · rename_i hc; subst hc; exact absurd h (by decide)
+    · rfl
+  · intro c h; unfold colonToSpace; split
+    · decide
+    · exact h
+
+theorem dec2decL_colonToSpace {α : Type} [R α] (pos neg : α → α → α → α) (l : List Char) :
+    dec2decL pos neg (l.map colonToSpace) = dec2decL pos neg l := by
+  unfold dec2decL; rw [tokensL_colonToSpace]
+
+/-! ### the sign comes from the first character of the first field -/
+
+theorem parseBody_sign (neg : Bool) (body : List Char) (t : Bool × Nat × Nat)
+    (h : parseBody neg body = some t) : t.1 = neg := by
+  simp only [parseBody] at h
+  split at h
+  · split at h
+    · simp at h
+    · simp at h; rw [← h]
+  · split at h
+    · simp at h; rw [← h]
+    · simp at h
+  · simp at h
+
+theorem parseNumL_minus (body : List Char) : parseNumL ('-' :: body) = parseBody true body := rfl
+
+/-- a first field that starts with '-' selects the subtracting branch whatever its value — in
+    particular for `-00` and `-0`, whose numeric value is not negative -/
+theorem dec2decL_minus {α : Type} [R α] (pos neg : α → α → α → α) (l b t1 : List Char)
+    (rest : List (List Char)) (ht : tokensL l = ('-' :: b) :: t1 :: rest) (v : α)
+    (hv : dec2decL pos neg l = .ok v) : ∃ x y z, v = neg x y z := by
+  unfold dec2decL at hv
+  rw [ht] at hv
+  simp only [parseNumL_minus] at hv
+  split at hv
+  · rename_i a _ _ ha _ _
+    have hs := parseBody_sign true b a ha
+    simp [hs] at hv
+    exact ⟨_, _, _, hv.symm⟩
+  · simp at hv
+
+example : parseNumL "-00".toList = some (true, 0, 0) ∧ parseNumL "-0".toList = some (true, 0, 0) := by
+  decide +kernel
 
 end Aegean.C17
